@@ -420,3 +420,52 @@ func VerifC17AliasResults() {
 	}
 	verifCover("C17/alias-results/end")
 }
+
+// VerifC17ShellVarsRepeatedKeys: the same key text at several depths, in one document or in the documents one encoder
+// writes one after the other (as the printer reuses it): a key that does not start with a letter - a digit-first key,
+// a sequence index - gets its leading underscore at the top level and none further down, wherever it was seen
+// first. Every NAME is a shell identifier, every VALUE reads back.
+func VerifC17ShellVarsRepeatedKeys() {
+	key := []string{"2fa", "0", "x", "_y", "9-9", "-"}[verifChoice("key", 6)]
+	v := verifStr("v", 1, "\x01\x7f")
+	enc := NewShellVariablesEncoder()
+	var docs []*CandidateNode
+	want := 0
+	switch verifChoice("history", 5) {
+	case 0: // nested first, then at the top of the same document
+		docs, want = []*CandidateNode{vDoc(vMap(vStr("a"), vMap(vStr(key), vStr(v)), vStr(key), vStr(v)))}, 2
+	case 1: // at the top first, then nested
+		docs, want = []*CandidateNode{vDoc(vMap(vStr(key), vStr(v), vStr("a"), vMap(vStr(key), vStr(v))))}, 2
+	case 2: // a nested sequence in one document, a sequence at the top of the next
+		docs, want = []*CandidateNode{vDoc(vMap(vStr("a"), vSeq(vStr(v)))), vDoc(vSeq(vStr(v), vStr(v)))}, 3
+	case 3: // nested in one document, at the top of the next
+		docs, want = []*CandidateNode{vDoc(vMap(vStr("a"), vMap(vStr(key), vStr(v)))), vDoc(vMap(vStr(key), vStr(v)))}, 2
+	default: // at the top of one document, nested in the next
+		docs, want = []*CandidateNode{vDoc(vMap(vStr(key), vStr(v))), vDoc(vMap(vStr("a"), vMap(vStr(key), vStr(v))))}, 2
+	}
+	var sb strings.Builder
+	var w io.Writer = c17Writer{&sb}
+	for _, d := range docs {
+		if err := enc.Encode(w, d); err != nil {
+			verifCover("C17/repeated-keys/refused")
+			return
+		}
+	}
+	out := sb.String()
+	verifObserve("out", out)
+	names, values, ok := c17Assignments(out)
+	verifAssert(ok, "C17/shell-output-not-assignments repeated-keys")
+	if !ok {
+		return
+	}
+	verifAssert(len(names) == want, "C17/shell-assignment-count repeated-keys")
+	for i := range names {
+		verifAssert(c17IsName(names[i]), "C17/shell-invalid-variable-name repeated-keys")
+		val, okv, safe := c17ReadValue(values[i])
+		verifAssert(okv && safe, "C17/shell-value-unterminated-quoting repeated-keys")
+		if okv {
+			verifAssert(verifEqStr(val, v), "C17/shell-value-expands-to-other-value repeated-keys")
+		}
+	}
+	verifCover("C17/repeated-keys/end")
+}
